@@ -808,6 +808,20 @@ package fzf
 //@ ensures historyMax == max && (result == nil) == (max >= 1)
 //@ ensures result == nil && opts.History != nil ==> opts.History.maxSize == max
 
+// parseKeymap splits the *masked* specification at commas and takes the same byte range of the original for each
+// piece: idx must be the offset of the piece in hand.  Verified up to the point where the key names of a piece are
+// looked up (maps keyed by tui.Event are outside the subset): the range is inside the original, and a key-only
+// piece (`a` in `a,b:action`) advances the offset like any other.
+//@ func parseKeymap
+//@ property C17
+//@ cut @"for _, keyName := range keys {" map keyed by a struct (tui.Event) - not followed
+//@ loop 1
+//@   invariant len(masked) == len(str) && (keys == nil || fresh(keys)) && fresh(ranged) && !sameArray(keys, ranged) && rangelen == len(ranged) && rangelen >= 1
+//@   invariant forall(k, 0, len(ranged), ranged[k].arr == masked.arr && masked.off <= ranged[k].off && ranged[k].off + len(ranged[k]) <= masked.off + len(masked)) && ranged[0].off == masked.off && ranged[len(ranged)-1].off + len(ranged[len(ranged)-1]) == masked.off + len(masked)
+//@   invariant forall(k, 1, len(ranged), ranged[k].off == ranged[k-1].off + len(ranged[k-1]) + 1)
+//@   invariant iter < rangelen ==> idx == ranged[iter].off - masked.off
+//@   invariant iter == rangelen ==> idx == len(masked) + 1
+
 //@ func parseTmuxOptions
 //@ property C17
 //@ ensures (r0 == nil) == (r1 != nil)
